@@ -36,6 +36,7 @@ properties! {
     "C10" => c10,
     "C11" => c11,
     "C12" => c12,
+    "C13" => c13,
     "C06" => c06,
     "C19" => c19,
 }
